@@ -12,9 +12,9 @@ namespace Borno.Parser
 open Borno Grammar
 
 /-- `p f = v` for all sufficiently large fuel -/
-def Ev {α : Type} (p : Nat → PR α) (v : PR α) : Prop := ∃ f0, ∀ f, f0 ≤ f → p f = v
+def Ev {β : Type} (p : Nat → β) (v : β) : Prop := ∃ f0, ∀ f, f0 ≤ f → p f = v
 
-theorem Ev.const {α : Type} (v : PR α) : Ev (fun _ => v) v := ⟨0, fun _ _ => rfl⟩
+theorem Ev.const {β : Type} (v : β) : Ev (fun _ => v) v := ⟨0, fun _ _ => rfl⟩
 
 theorem ev_bind {α β : Type} {p : Nat → PR α} {q : Nat → α → List Token → PR β} {a : α} {r1 : List Token} {v : PR β}
     (h1 : Ev p (.ok a r1)) (h2 : Ev (fun f => q f a r1) v) : Ev (fun f => (p f).bind (q f)) v := by
@@ -22,7 +22,7 @@ theorem ev_bind {α β : Type} {p : Nat → PR α} {q : Nat → α → List Toke
   exact ⟨max f1 f2, fun f hf => by simp only [h1 f (by omega), PR.bind]; exact h2 f (by omega)⟩
 
 /-- a definition by `| 0 => … | f + 1 => body f` is eventually what its body eventually is -/
-theorem ev_succ {α : Type} {p body : Nat → PR α} {v : PR α} (hp : ∀ f, p (f + 1) = body f) (h : Ev body v) : Ev p v := by
+theorem ev_succ {β : Type} {p body : Nat → β} {v : β} (hp : ∀ f, p (f + 1) = body f) (h : Ev body v) : Ev p v := by
   obtain ⟨f0, h⟩ := h
   refine ⟨f0 + 1, fun f hf => ?_⟩
   obtain ⟨g, rfl⟩ : ∃ g, f = g + 1 := ⟨f - 1, by omega⟩
@@ -236,7 +236,7 @@ theorem ev_assign_prop {ts : List Token} {o : Expr} {q : Name} {l : Nat} {t : To
   show assignment (g + 1) ts = _
   rw [assignment]; simp only [h g (by omega), hv g (by omega), PR.bind, peekTok, ht, if_true]
 
-theorem Ev.const_eq {α : Type} {a v : PR α} (h : Ev (fun _ => a) v) : v = a := by
+theorem Ev.const_eq {β : Type} {a v : β} (h : Ev (fun _ => a) v) : v = a := by
   obtain ⟨f0, h⟩ := h; exact (h f0 (Nat.le_refl _)).symm
 
 /-! ### follow sets -/
@@ -331,22 +331,6 @@ theorem ev_cont_stop {k : Nat} {t : Token} (acc : Expr) (rest : List Token) (h :
   · simp only [hk, if_false]; exact Ev.const _
 
 /-! ### the first token of a rendering -/
-
-def headTT : Expr → TT
-  | .literal v _ => (rLit v).tt
-  | .ident _ _ => .IDENTIFIER
-  | .grouping _ _ => .LEFT_PAREN
-  | .unary op _ _ => op
-  | .binary l _ _ _ => headTT l
-  | .logical l _ _ => headTT l
-  | .call c _ _ => headTT c
-  | .arrayLit _ => .LEFT_BRACKET
-  | .objectLit _ _ => .LEFT_BRACE
-  | .arrayAccess a _ _ => headTT a
-  | .propAccess o _ _ => headTT o
-  | .assign _ _ _ _ => .IDENTIFIER
-  | .arrayAssign a _ _ _ => headTT a
-  | .propAssign o _ _ _ => headTT o
 
 theorem toks_head : ∀ e : Expr, ∃ x xs, toks e = x :: xs ∧ x.tt = headTT e
   | .literal v _ => ⟨tk (rLit v), [], by simp [toks, rExpr], by simp [tk, headTT]⟩
